@@ -126,8 +126,7 @@ func runExpand(j Job) JobResult {
 		if len(r.Violations) > 0 {
 			// believe a violation only if it reproduces
 			for i := 0; i < 2; i++ {
-				r2 := RunOnce(sc, nil, false, nil)
-				if len(r2.Violations) != len(r.Violations) {
+				if !sameProps(r.Violations, RunOnce(sc, nil, false, nil).Violations) {
 					c.EngineErr = "violation did not reproduce for " + sc.Name
 				}
 			}
